@@ -310,7 +310,7 @@ func ruleReceiveOrder(c *Ctx, r *Report) {
 				r.Check(ok2, rule, key+":decrypted", c.ipos(ret), "possible success only after decryptLegacyRecord ok", "success without successful decryption: "+w2)
 				r.Check(isCallResult(third, nameIs("(*dtls.Conn).validateLegacyCID")), "cid-checks", key+":equality", c.ipos(ret), "ok flag is the result of validateLegacyCID(header)", "the ok flag of a decrypted record is not the connection-ID equality check")
 			}
-			r.Floor("cid-checks", n, 2)
+			r.Floor("cid-checks", n, 1)
 		}
 	}
 	if fn := c.need(r, rule, "(*dtls.Conn).decryptLegacyRecord"); fn != nil {
